@@ -56,3 +56,13 @@ Theorem C11_header_case_analysis_is_the_source : forall a constants nofree fl1,
   = SrcHeaderTie.model_header a constants nofree fl1.
 Proof. exact SrcHeaderTie.header_tie. Qed.
 Print Assumptions C11_header_case_analysis_is_the_source.
+
+(* and the two conversions themselves: to_flags_data (zero word, enum._decompose, raise on bits no member covers, the names of
+   the members) and from_flags_data (the bitwise or of the members' values, AttributeError on an unknown name), re-translated
+   on every run (Gen/SrcFlags.v), are the model's for every configuration, word and list of names *)
+From PCD Require Base.PyImp Gen.SrcFlags Proofs.SrcFlagsTie.
+Theorem C11_flag_conversions_are_the_source : forall c,
+  (forall flags, PCD.Gen.SrcFlags.to_flags_data c flags = to_flags_data c flags) /\
+  (forall fs, PCD.Gen.SrcFlags.from_flags_data c fs = from_flags_data c fs).
+Proof. intros c. split; intros; [apply SrcFlagsTie.to_flags_data_tie | apply SrcFlagsTie.from_flags_data_tie]. Qed.
+Print Assumptions C11_flag_conversions_are_the_source.
